@@ -23,6 +23,7 @@ EXTENDS Naturals, Sequences, FiniteSets, TLC
 CONSTANTS Words,        \* set of symbol sequences that can be appended in one step
           Prefix,       \* symbol sequence every text starts with
           MaxLen,       \* bound on the number of symbols after the prefix
+          MaxWords,     \* bound on the number of words appended
           NoBackslash   \* TRUE: sql_mode NO_BACKSLASH_ESCAPES (backslash is an ordinary character in strings)
 
 IsSpace(c) == c \in {"SP", "NL", "TAB"}
@@ -135,15 +136,17 @@ Pieces(text)  == Finish(Lex(text)).pieces
 WellFormed(text) == Finish(Lex(text)).wf
 
 -----------------------------------------------------------------------------------
-VARIABLES text, lx
-vars == <<text, lx>>
+VARIABLES text, lx, nw
+vars == <<text, lx, nw>>
 
-Init == text = Prefix /\ lx = Lex(Prefix)
+Init == text = Prefix /\ lx = Lex(Prefix) /\ nw = 0
 
 Next == \E w \in Words :
             /\ Len(text) + Len(w) <= Len(Prefix) + MaxLen
+            /\ nw < MaxWords
             /\ text' = text \o w
             /\ lx' = Run(lx, w)
+            /\ nw' = nw + 1
 
 Spec == Init /\ [][Next]_vars
 
